@@ -4,13 +4,15 @@ go 1.23.1
 
 toolchain go1.23.5
 
-require github.com/simimpact/srsim v0.0.0
+require (
+	github.com/simimpact/srsim v0.0.0
+	google.golang.org/protobuf v1.34.2
+)
 
 require (
 	github.com/aclements/go-moremath v0.0.0-20210112150236-f10218a38794 // indirect
 	github.com/go-chi/chi v1.5.5 // indirect
 	github.com/go-chi/cors v1.2.1 // indirect
-	google.golang.org/protobuf v1.34.2 // indirect
 	gopkg.in/yaml.v2 v2.4.0 // indirect
 	sigs.k8s.io/yaml v1.3.0 // indirect
 )
